@@ -17,6 +17,9 @@ class TRig:
     def __init__(self, r, snapshot="default.snapshot", sim_cls=None):
         from geckolib.utils.snapshot import GeckoSnapshot
 
+        from . import contracts
+
+        contracts.install()
         self.s = Sched(r).install()
         self.net = TNet(self.s)
         self.sim = quiet_simulator(sim_cls)
